@@ -50,13 +50,40 @@ def exec_and_judge(P, ctx, cases, tag):
     """Steps 4-5 on a list of cases; returns rejects [(case id, i, reason)], judge stats."""
     cpath = os.path.join(ctx["work"], "cases-%s.ndjson" % tag)
     tpath = os.path.join(ctx["work"], "trace-%s.ndjson" % tag)
-    core.write_ndjson(cpath, cases)
-    p = core.sh([ctx["harness"], "exec", cpath, tpath], timeout=ctx["timeout"], env=ctx.get("harness_env"))
-    if "EXECUTED" not in p.stdout:
-        raise Infra("harness did not finish: " + p.stdout[-500:] + p.stderr[-2000:])
+    remaining = list(cases)
+    part = 0
+    hangs = []
+    open(tpath, "w").close()
+    while True:
+        core.write_ndjson(cpath, remaining)
+        ppath = tpath + ".part%d" % part
+        p = core.sh([ctx["harness"], "exec", cpath, ppath], timeout=ctx["timeout"], env=ctx.get("harness_env"), check=False)
+        m = core.re.search(r"HANG case=(-?\d+)", p.stdout)
+        if m:
+            # a library call did not return within the case budget: keep the complete cases before it
+            hung = int(m.group(1))
+            hangs.append(hung)
+            with open(tpath, "a") as out, open(ppath) as src:
+                for line in src:
+                    cm = core.re.search(r'"case":(-?\d+)', line)
+                    if cm and int(cm.group(1)) != hung:
+                        out.write(line)
+            idx = [k for k, c in enumerate(remaining) if c["case"] == hung]
+            remaining = remaining[idx[0] + 1:] if idx else []
+            part += 1
+            if len(hangs) >= 4 or not remaining:
+                break
+            continue
+        if p.returncode != 0 or "EXECUTED" not in p.stdout:
+            raise Infra("harness did not finish: " + p.stdout[-500:] + p.stderr[-2000:])
+        with open(tpath, "a") as out, open(ppath) as src:
+            shutil.copyfileobj(src, out)
+        break
+    ctx.setdefault("hangs", {})[tag] = hangs
     nsh = P.get("shards", {}).get(ctx["tier"], 1) if tag == "main" else 1
     t = P["trace"]
     rejects, r = core.judge_sharded(ctx["sdir"], t[0], t[1], tpath, ctx["work"], nsh, timeout=ctx["timeout"])
+    rejects += [(h, 0, "call_did_not_return") for h in hangs]
     return rejects, r, tpath
 
 
